@@ -126,14 +126,17 @@ struct Script {
 
 Script decode(vk::Choice& c) {
   Script s;
+  // the C09 check concentrates on futures (most items are spawn_future, smaller scripts leave more of the schedule budget to the future's races)
+  const bool c09 = vk::ctx().prop == "C09" && vk::ctx().arg("legacy-decode") != "1";   // (replays recorded before the bias existed carry legacy-decode=1)
   s.variant = c.flag() ? 2 : 1;
   s.S = 1 + (int)c.upto(2); s.J = 1 + (int)c.upto(2);
+  if (c09 && c.chance(2, 3)) { s.S = 1; s.J = 1; }
   s.spawn.resize((size_t)s.S);
   for (int t = 0; t < s.S; ++t) {
     int n = 1 + (int)c.upto(3);
     for (int k = 0; k < n; ++k) {
-      ItemRec it; unsigned w = c.upto(10); it.kind = w < 4 ? 0 : w < 6 ? 1 : 2;
-      if (it.kind == 2) it.future_use = (int)c.upto(5);
+      ItemRec it; unsigned w = c.upto(10); it.kind = c09 ? (w < 2 ? 0 : w < 3 ? 1 : 2) : (w < 4 ? 0 : w < 6 ? 1 : 2);
+      if (it.kind == 2) { it.future_use = (int)c.upto(5); if (c09 && c.chance(1, 3)) it.future_use = 2; }
       LeafRec L; unsigned o = c.upto(10); L.chan_plan = it.kind == 1 ? (o < 8 ? dk::VALUE : dk::DONE) : (o < 6 ? dk::VALUE : o < 8 ? dk::ERROR : dk::DONE);
       L.on_stop = c.chance(3, 4) ? 1 : 0;
       s.spawn[(size_t)t].push_back((int)s.items.size());
